@@ -140,7 +140,8 @@ static void runEnum(const Opt &o, Ev &ev) {
 }
 
 // ------------------------------------------------------------- (b)/(c) random patterns, shipped patterns
-static const char *const kPool[] = {"ALPha", "BRAvo", "CHarlie", "DELTa", "ECHO", "FOXtrot", "GOLF", "HOTel", "INDia", "JULiett", "KILO", "LIMa"};
+static const char *const kPool[] = {"ALPha", "BRAvo", "CHarlie", "DELTa", "ECHO", "FOXtrot", "GOLF", "HOTel", "INDia", "JULiett", "KILO", "LIMa", "ALPMode", "CHIrp", "INDEx"};   // the last three: prefix relation with ALPha / CHarlie / INDia (gen.hpp)
+static const int kNPoolC03 = 15;
 static const char *const kShipped[] = {
     "*CLS", "*ESE", "*ESE?", "*ESR?", "*IDN?", "*OPC", "*OPC?", "*RST", "*SRE", "*SRE?", "*STB?", "*TST?", "*WAI",
     "SYSTem:ERRor[:NEXT]?", "SYSTem:ERRor:COUNt?", "SYSTem:VERSion?", "STATus:OPERation?", "STATus:OPERation:EVENt?", "STATus:OPERation:CONDition?", "STATus:OPERation:ENABle",
@@ -185,10 +186,10 @@ static std::string spell(Src &s, const RefPattern &p, bool &mutated) {
             case 0: mn[at] += (char) ('A' + s.range(0, 25)); break;                                   // one letter more
             case 1: if (mn[at].size() > 1) mn[at].pop_back(); break;                                  // one letter fewer
             case 2: { size_t nd = 0; for (char ch : mn[at]) nd += isdigit((unsigned char) ch) != 0; if (nd < 9) mn[at] += (char) ('0' + s.range(0, 9)); break; }   // digit after any keyword (suffix values stay <= 9 digits)
-            case 3: mn[at] = upper(kPool[s.range(0, 11)]); break;                                      // foreign keyword
+            case 3: mn[at] = upper(kPool[s.range(0, kNPoolC03 - 1)]); break;                                      // foreign keyword
             case 4: if (mn.size() > 1) std::swap(mn[at], mn[(at + 1) % mn.size()]); break;             // swapped order
             case 5: mn.erase(mn.begin() + (long) at); if (mn.empty()) mn.push_back("X"); break;        // missing keyword
-            case 6: mn.push_back(s.coin() ? upper(kPool[s.range(0, 11)]) : mn[at]); break;             // extra trailing keyword
+            case 6: mn.push_back(s.coin() ? upper(kPool[s.range(0, kNPoolC03 - 1)]) : mn[at]); break;             // extra trailing keyword
             case 7: { const RefKeyword &k = p.kw[s.range(0, p.kw.size() - 1)]; mn[at] = k.longForm.substr(0, std::max((size_t) 1, (size_t) s.range(1, k.longForm.size()))); break; }   // truncated long form
             default: break;
         }
@@ -207,7 +208,7 @@ static std::string randPattern(Src &s) {
     std::string p;
     for (int i = 0; i < n; i++) {
         std::vector<int> freeNames;     // construction, not rejection: an exhausted choice source must still terminate
-        for (int x = 0; x < 12; x++) if (std::find(used.begin(), used.end(), x) == used.end()) freeNames.push_back(x);
+        for (int x = 0; x < kNPoolC03; x++) if (std::find(used.begin(), used.end(), x) == used.end()) freeNames.push_back(x);
         int name = freeNames[s.range(0, freeNames.size() - 1)];
         used.push_back(name);
         bool opt = s.prob(2, 5), num = s.prob(1, 3);
